@@ -174,6 +174,22 @@ Fixpoint deref (fuel : nat) (m : objmap) (o : obj) (n : N) : option obj :=
   | _ => Some o
   end.
 Definition dereference (m : objmap) (o : obj) : option obj := deref (S (S (N.to_nat DEREF_LIMIT))) m o 0.
+(* the same walk, also returning the identifier of the last reference followed ([id] when there was none) *)
+Fixpoint deref_id (fuel : nat) (m : objmap) (id : oid) (o : obj) (n : N) : option (oid * obj) :=
+  match o with
+  | ORef i g =>
+    match fuel with
+    | O => None
+    | S f =>
+      match lookup m (i, g) with
+      | None => None
+      | Some o' => if DEREF_LIMIT <? n + 1 then None else deref_id f m (i, g) o' (n + 1)
+      end
+    end
+  | _ => Some (id, o)
+  end.
+Definition dereference_id (m : objmap) (id : oid) (o : obj) : option (oid * obj) :=
+  deref_id (S (S (N.to_nat DEREF_LIMIT))) m id o 0.
 
 (* entry(id).or_insert(o) *)
 Definition or_insert (m : objmap) (id : oid) (o : obj) : objmap :=
@@ -294,39 +310,41 @@ Section Ext.
     let m1 := fold_left (fun acc eo => merge_members acc (filter (fun io => is_named x (fst eo) (fst io)) (snd eo))) ostm m in
     fold_left (fun acc eo => merge_members acc (filter (fun io => negb (is_named x (fst eo) (fst io))) (snd eo))) ostm m1.
 
-  (* read_stream_content(object_id); errors are ignored (`let _ =`).  None = a path that is not modelled:
-     the identifier now names a reference (get_object_mut would then change the stream referred to). *)
-  Definition read_stream_content (buf : bytes) (m : objmap) (p : posmap) (id : oid) : option objmap :=
+  (* read_stream_content(object_id); errors are ignored (`let _ =`).  get_stream_length looks the identifier up with
+     Document::get_object and get_object_mut finds the stream to change with the same dereferencing: when the
+     identifier (by now) names a reference, the stream referred to is the one whose Length, start position and
+     content are used. *)
+  Definition read_stream_content (buf : bytes) (m : objmap) (p : posmap) (id : oid) : objmap :=
     match lookup m id with
-    | Some (OStream d c) =>
-      match dict_get d K_Length with
-      | Some v =>
-        match dereference m v with
-        | Some (OInt len) =>
-          match pos_get p id with
-          | Some start =>
-            if (len <? 0)%Z then Some m
-            else
-              let e := start + Z.to_N len in
-              if Loader.blen buf <? e then Some m
+    | Some o =>
+      match dereference_id m id o with
+      | Some (tid, OStream d c) =>
+        match dict_get d K_Length with
+        | Some v =>
+          match dereference m v with
+          | Some (OInt len) =>
+            match pos_get p tid with
+            | Some start =>
+              if (len <? 0)%Z then m
               else
-                let content := firstn (Z.to_nat len) (from start buf) in
-                Some (insert m id (OStream (dict_set d K_Length (OInt (Z.of_nat (length content)))) content))
-          | None => Some m
+                let e := start + Z.to_N len in
+                if Loader.blen buf <? e then m
+                else
+                  let content := firstn (Z.to_nat len) (from start buf) in
+                  insert m tid (OStream (dict_set d K_Length (OInt (Z.of_nat (length content)))) content)
+            | None => m
+            end
+          | _ => m
           end
-        | _ => Some m
+        | None => m
         end
-      | None => Some m
+      | _ => m
       end
-    | Some (ORef _ _) => None
-    | _ => Some m
+    | None => m
     end.
 
-  Fixpoint zero_pass (buf : bytes) (m : objmap) (p : posmap) (zs : list oid) : option objmap :=
-    match zs with
-    | [] => Some m
-    | id :: zs' => match read_stream_content buf m p id with Some m' => zero_pass buf m' p zs' | None => None end
-    end.
+  Definition zero_pass (buf : bytes) (m : objmap) (p : posmap) (zs : list oid) : objmap :=
+    fold_left (fun acc id => read_stream_content buf acc p id) zs m.
 
   Definition load_ext (buf0 : bytes) : lres :=
     let buf := from (pdf_offset buf0) buf0 in
@@ -348,12 +366,8 @@ Section Ext.
                       {| r_objs := []; r_pos := []; r_ostm := []; r_zero := [] |} with
               | SOk st =>
                 let m := merge_object_streams (x_entries x) (r_objs st) (r_ostm st) in
-                match zero_pass buf m (r_pos st) (r_zero st) with
-                | Some objs =>
-                  LOk {| d_version := version; d_binary_mark := mark; d_trailer := t;
-                         d_objects := objs; d_max_id := xref_max_id x |} (x_type x)
-                | None => LUnmodelled
-                end
+                LOk {| d_version := version; d_binary_mark := mark; d_trailer := t;
+                       d_objects := zero_pass buf m (r_pos st) (r_zero st); d_max_id := xref_max_id x |} (x_type x)
               | SErr e => LErr e
               | SPanic => LPanic
               | SOut => LOut
